@@ -63,6 +63,21 @@ def judge(ctx, recs, job=None):
     acc, rej = vlib.validate_traces(ctx, "CachePlugin_Trace", "CachePlugin_Trace.cfg", [r["events"] for r in recs], label="C05")
     for idx, info in rej:
         r = recs[idx]
+        if r["tag"] == "lazy" and job is not None and not ctx.replay:
+            # lazy behaviours run bursts of concurrent Execs plus background refreshes: the order in which their events reach
+            # the recorder depends on the scheduler. A rejection is re-confirmed by running that behaviour alone three times
+            # (observed once under load 60+: not reproduced, see DESIGN 12.8); a defect of the code reproduces.
+            sj = sub_job(job, r)
+            again = 0
+            for _ in range(3):
+                rr, _ = vlib.run_driver(ctx, vlib.go_build(ctx, "drv_cache"), stdin_obj=sj)
+                t2 = [x for x in rr if x["kind"] == "trace" and not x["slow"]]
+                _, rej2 = vlib.validate_traces(ctx, "CachePlugin_Trace", "CachePlugin_Trace.cfg", [x["events"] for x in t2], label="C05 reconfirm")
+                again += 1 if rej2 else 0
+            ctx.cov.setdefault("ordering_reconfirmations", []).append({"signature": signature(r, info), "rejected_again": again, "of": 3})
+            if again < 2:
+                vlib.log("lazy-burst rejection not reproduced (%d/3) when the behaviour runs alone: scheduler artefact of the recorder, not a violation" % again)
+                continue
         ctx.violation(signature(r, info), "real cache run (%s) is not a behaviour of CachePlugin.tla satisfying the C05 rules: rejected at "
                       "event %s: %s" % (r["tag"], info.get("line_in_trace"), json.dumps(info.get("event"))[:500]),
                       {"rec": {"tag": r["tag"], "beh": r["beh"], "step": r["step"], "events": r["events"][:12]}, "job": sub_job(job, r)})
